@@ -43,14 +43,21 @@ class Handler(PyObj):
 
 class Env:
     """the environment of one connection: what arrives / is ready / fails at which poll round"""
-    def __init__(self, e, tasks, fault):
+    def __init__(self, e, tasks, fault, policy=None):
         self.e = e; self.pending_tasks = list(tasks); self.received = []; self.wire = []; self.replied = 0
         self.fault = fault          # (site, round) or None; sites: ready, send, flush, read_err, read_closed, rx_closed
-        self.round = 0; self.quota = {}
+        self.round = 0; self.quota = {}; self.registered = set()
         self.flushed = 0
+        # which environment dimensions are free in this scenario (the others take their benign value): keeps the
+        # product of choices per scenario small; every dimension is free in some scenario family
+        self.policy = dict({'arrive': 'free', 'sink': 'free', 'flush': 'ready', 'reply': 'free', 'tick': 'never'}, **(policy or {}))
 
     def begin_round(self):
-        self.round += 1; self.quota = {}
+        self.round += 1; self.quota = {}; self.registered = set()
+
+    def pending(self, source):
+        """an event source answered Pending: the task's waker is registered there"""
+        self.registered.add(source); return Enum('Poll', 1)
 
     def fault_now(self, site):
         return self.fault is not None and self.fault[0] == site and self.fault[1] == self.round
@@ -68,14 +75,14 @@ class Rx(PyObj):
         env = self.env
         if not env.pending_tasks:
             if env.fault_now('rx_closed'): return Enum('Poll', 0, [NONE()])
-            return Enum('Poll', 1)
-        q = env.budget('arrive', len(env.pending_tasks), 'arrivals')
+            return env.pending('task-channel')
+        q = env.budget('arrive', len(env.pending_tasks), 'arrivals') if env.policy['arrive'] == 'free' else len(env.pending_tasks) + env.quota.get('arrived', 0)
         done = env.quota.setdefault('arrived', 0)
         if done < q:
             env.quota['arrived'] = done + 1
             t = env.pending_tasks.pop(0); env.received.append(t)
             return Enum('Poll', 0, [Some(t)])
-        return Enum('Poll', 1)
+        return env.pending('task-channel')
 
 
 def io_error(): return Enum('BackendError', 0, [Opaque('io::Error', 'broken pipe')])
@@ -86,12 +93,12 @@ class Sink(PyObj):
     def m_poll_ready(self, e, s, cx):
         env = self.env
         if env.fault_now('ready'): return Enum('Poll', 0, [Err(io_error())])
-        q = env.budget('ready', 3, 'sink-ready')
+        q = env.budget('ready', 2, 'sink-ready') if env.policy['sink'] == 'free' else 2      # 0, 1 or any number of items
         done = env.quota.setdefault('readied', 0)
-        if q == 3 or done < q:
+        if q == 2 or done < q:
             env.quota['readied'] = done + 1
             return Enum('Poll', 0, [Ok(mk_unit())])
-        return Enum('Poll', 1)
+        return env.pending('backend-sink')
     def m_start_send(self, e, s, item):
         env = self.env
         if env.fault_now('send'): return Err(io_error())
@@ -99,9 +106,9 @@ class Sink(PyObj):
     def m_poll_flush(self, e, s, cx):
         env = self.env
         if env.fault_now('flush'): return Enum('Poll', 0, [Err(io_error())])
-        if env.budget('flush', 1, 'flush-ready') == 1:
+        if env.policy['flush'] == 'ready' or env.budget('flush', 1, 'flush-ready') == 1:
             env.flushed = len(env.wire); return Enum('Poll', 0, [Ok(mk_unit())])
-        return Enum('Poll', 1)
+        return env.pending('backend-sink')
     def m_as_mut(self, e, s): return s
 
 
@@ -113,14 +120,14 @@ class Stream(PyObj):
         if env.fault_now('read_err'): return Enum('Poll', 0, [Some(Err(io_error()))])
         if env.fault_now('read_closed'): return Enum('Poll', 0, [NONE()])
         outstanding = len(env.wire) - env.replied
-        if outstanding <= 0: return Enum('Poll', 1)
+        if outstanding <= 0 or env.policy['reply'] == 'none': return env.pending('backend-stream')
         q = env.budget('reply', outstanding, 'replies')
         done = env.quota.setdefault('replied', 0)
         if done < q:
             env.quota['replied'] = done + 1
             req = env.wire[env.replied]; env.replied += 1
             return Enum('Poll', 0, [Some(Ok(Pkt(req.tag, 'reply')))])
-        return Enum('Poll', 1)
+        return env.pending('backend-stream')
 
 
 def run_conn(e, env, handler, retry_state, strategy, rounds):
@@ -132,9 +139,11 @@ def run_conn(e, env, handler, retry_state, strategy, rounds):
     fut = e.run_func(hc, [Sink(env), Stream(env), Ref(Cell(Rx(env))), Ref(Cell(handler), 'Arc'), retry_state,
                           Ref(Cell(Struct('BatchStats', [Struct('Atomic', [0]), Struct('Atomic', [0])])), 'Arc'), strat, 1024, dur, dur, dur])
     cell = Cell(fut)
+    e.pending_hook = lambda src: env.registered.add(src)
     for _ in range(rounds):
         env.begin_round()
         r = e.poll(Ref(cell))
+        if r.variant == 1 and not env.registered: env.lost_wakeup = env.round
         if r.variant == 0:
             res = un(r.f[0].v)
             if res.variant == 0: return 'ok', None
@@ -157,6 +166,10 @@ def conn_oracle(ctx, e, name, tasks, env1, env2, handler, outcome, final_retry):
             p = un(r.f[0].v)
             if not (isinstance(p, Pkt) and p.kind == 'reply' and p.tag == t.tag): ok = False
     items.append(('reply-delivered-to-its-own-request', 'C08/reply-delivered-to-another-request/' + name, ok, wit))
+    # (1b) a poll that returns Pending has registered its waker with at least one event source
+    for env in (env1, env2):
+        if env is not None:
+            items.append(('pending-poll-registers-a-waker', 'C08/connection-sleeps-without-waker/' + name, getattr(env, 'lost_wakeup', None) is None, wit))
     # (2) at most one completion per task
     items.append(('at-most-one-reply-per-request', 'C08/request-completed-twice/' + name, all(len(t.results) <= 1 for t in tasks), wit))
     # (3) requests go to the backend in the order they were received (retried ones first, in their order)
@@ -189,31 +202,40 @@ FAULT_SITES = ['ready', 'send', 'flush', 'read_err', 'read_closed']
 
 def backend_conn(ctx, job):
     n = job['tasks']; rounds = job['rounds']; strategy = job['strategy']
+    tick_free = (job.get('policy') or {}).get('tick') == 'free'
     def setup(e):
-        e.env_hook = lambda label, k: e.choose(k, label)
+        e.env_hook = lambda label, k: (e.choose(k, label) if tick_free or label != 'tick' else 0)
         e.loop_budget = 64
     def run(e):
         tasks = [Task(i + 1) for i in range(n)]
         handler = Handler()
         fault = job['fault']
-        env1 = Env(e, tasks[:job['first']], fault)
+        env1 = Env(e, tasks[:job['first']], fault, job.get('policy'))
         env1.expected_order = tasks[:job['first']]
         out = run_conn(e, env1, handler, NONE(), strategy, rounds)
         env2 = None; final_retry = None
         if out[0] == 'err':
             final_retry = out[1][1]
-            if job.get('second') and isinstance(final_retry, Enum) and final_retry.variant == 1:
-                # the caller (handle_backend) opens a new connection and hands the retry state over
+            nconn = 1
+            # the caller (handle_backend) opens a new connection and hands the retry state over; with a persistent
+            # fault this repeats, and must end with every request answered after a bounded number of connections
+            while job.get('second') and isinstance(final_retry, Enum) and final_retry.variant == 1 and nconn < job.get('max_conns', 2):
                 rs = un(final_retry.f[0].v)
                 retry_tasks = [un(c.v) for c in deref_vec(rs.f[e.src.structs['RetryState'].index('tasks')].v).cells]
-                env2 = Env(e, tasks[job['first']:], job.get('fault2'))
-                env2.expected_order = retry_tasks + tasks[job['first']:]
+                prev = env2 or env1
+                prev.received = [t for t in prev.received if not any(t is x for x in retry_tasks)]
+                if env2 is not None: env1.received += prev.received
+                env2 = Env(e, tasks[job['first']:] if nconn == 1 else [], job.get('fault2'), job.get('policy'))
+                env2.expected_order = retry_tasks + (tasks[job['first']:] if nconn == 1 else [])
                 out2 = run_conn(e, env2, handler, final_retry, strategy, rounds)
-                if out2[0] == 'err': final_retry = out2[1][1]; out = out2
-                else: final_retry = None; out = out2
-                # the retried tasks count as received by the second connection
+                nconn += 1
                 env2.received = retry_tasks + env2.received
-                env1.received = [t for t in env1.received if not any(t is x for x in retry_tasks)]
+                if out2[0] == 'err': final_retry = out2[1][1]; out = out2
+                else: final_retry = None; out = out2; break
+            if job.get('persistent'):
+                left = isinstance(final_retry, Enum) and final_retry.variant == 1
+                ctx.require_all(e, [('failing-exchange-ends-with-an-error-reply', 'C08/request-retried-forever/' + job['name'], not left,
+                                     lambda m=None: {'scenario': job['name'], 'connections': nconn, 'results': {repr(t): [k for k, v in t.results] for t in tasks}})])
         conn_oracle(ctx, e, job['name'], tasks, env1, env2, handler, out, final_retry)
         return 1
     res = ctx.explore('handle_conn %s' % job['name'], run, engine_setup=setup, max_paths=200000)
@@ -296,16 +318,18 @@ class ClientReader(PyObj):
     def __init__(self, env): self.env = env
     def m_poll_next(self, e, s, cx):
         env = self.env
-        if not env.pending:
+        if not env.to_arrive:
             if env.fault_now('client_closed'): return Enum('Poll', 0, [NONE()])
-            return Enum('Poll', 1)
-        q = env.budget('arrive', len(env.pending), 'requests')
+            return env.pending('client-reader')
+        q = env.budget('arrive', len(env.to_arrive), 'requests') if env.policy['arrive'] == 'free' else len(env.to_arrive) + env.quota.get('arrived', 0)
         done = env.quota.setdefault('arrived', 0)
         if done < q:
             env.quota['arrived'] = done + 1
-            tag = env.pending.pop(0); env.received.append(tag)
-            return Enum('Poll', 0, [Some(Ok(Ref(Cell(Pkt(tag, 'req')), 'Box')))])
-        return Enum('Poll', 1)
+            tag = env.to_arrive.pop(0); env.received.append(tag)
+            from props import executor as X
+            pkt = X.data_packet(e, X.array(e, [X.bulk(e, list(b'ECHO')), X.bulk(e, [tag])]))
+            return Enum('Poll', 0, [Some(Ok(Ref(Cell(pkt), 'Box')))])
+        return env.pending('client-reader')
     def m_map_err(self, e, s, f): return s
 
 
@@ -314,22 +338,23 @@ class ClientWriter(PyObj):
     def m_poll_ready(self, e, s, cx):
         env = self.env
         if env.fault_now('client_write_err'): return Enum('Poll', 0, [Err(Enum('EncodeError', 0, [Opaque('io::Error', 'reset')]))])
-        q = env.budget('ready', 3, 'client-sink-ready')
+        q = env.budget('ready', 2, 'client-sink-ready') if env.policy['sink'] == 'free' else 2
         done = env.quota.setdefault('readied', 0)
-        if q == 3 or done < q:
+        if q == 2 or done < q:
             env.quota['readied'] = done + 1
             return Enum('Poll', 0, [Ok(mk_unit())])
-        return Enum('Poll', 1)
+        return env.pending('client-writer')
     def m_start_send(self, e, s, item):
         self.env.written.append(un(item)); return Ok(mk_unit())
     def m_poll_flush(self, e, s, cx):
-        return Enum('Poll', 0, [Ok(mk_unit())]) if self.env.budget('flush', 1, 'client-flush') else Enum('Poll', 1)
+        if self.env.policy['flush'] == 'ready' or self.env.budget('flush', 1, 'client-flush'): return Enum('Poll', 0, [Ok(mk_unit())])
+        return self.env.pending('client-writer')
 
 
 class SessEnv(Env):
-    def __init__(self, e, tags, fault):
-        Env.__init__(self, e, [], fault)
-        self.pending = list(tags); self.received = []; self.written = []; self.senders = {}; self.completed = {}
+    def __init__(self, e, tags, fault, policy=None):
+        Env.__init__(self, e, [], fault, policy)
+        self.to_arrive = list(tags); self.received = []; self.written = []; self.senders = {}; self.completed = {}
 
 
 class SessHandler(PyObj):
@@ -338,9 +363,10 @@ class SessHandler(PyObj):
     def m_handle_cmd(self, e, s, cmd):
         from props import executor as X
         c = un(cmd)
-        pkt = un(c.f[e.src.structs['Command'].index('request')].v)
+        el = e.run_func(e.find_fn('Command', 'get_command_element'), [Ref(Cell(c)), 1])
+        tag = deref_vec(el.f[0].v).cells[0].v
         pair = e.call('command::new_command_pair', [Ref(Cell(c))])
-        self.env.senders[pkt.tag] = Cell(pair.f[0].v)
+        self.env.senders[tag] = Cell(pair.f[0].v)
         return Enum('Either', 0, [pair.f[1].v])
     def m_handle_slowlog(self, e, s, req, slowlog): self.slowlogs.append(un(req)); return mk_unit()
 
@@ -349,12 +375,15 @@ def session_loop(ctx, job):
     """handle_session from the point where the framed socket exists: the codec/socket construction is replaced by the
     client reader / writer stand-ins; the poll closure itself is the real one"""
     n = job['requests']; rounds = job['rounds']
+    tick_free = job.get('timeout')
     def setup(e):
-        e.env_hook = lambda label, k: e.choose(k, label)
+        e.env_hook = lambda label, k: (e.choose(k, label) if tick_free or label != 'tick' else 0)
         e.loop_budget = 64
         e.session_io = None
+        if job.get('batch_buf'): e.const_overrides = {'SESSION_BATCH_BUF': job['batch_buf']}
     def run(e):
-        env = SessEnv(e, list(range(1, n + 1)), job['fault'])
+        env = SessEnv(e, list(range(1, n + 1)), job['fault'], job.get('policy'))
+        outcomes = 4 if job.get('failures') else 2
         h = SessHandler(env)
         e.session_io = (ClientWriter(env), ClientReader(env))
         hs = e.find_free_fn('session::handle_session')
@@ -363,16 +392,19 @@ def session_loop(ctx, job):
         fut = e.run_func(hs, [Ref(Cell(h), 'Arc'), Opaque('TcpStream'), timeout])
         cell = Cell(fut); outcome = 'pending'
         vi = e.src.variant_index
+        lost_wakeup = [None]
+        e.pending_hook = lambda src: env.registered.add(src)
         for rd in range(rounds):
             env.begin_round()
             # the environment completes some of the outstanding requests (any subset order is reachable over rounds)
             for tag in sorted(env.senders):
                 if tag in env.completed: continue
-                how = e.choose(4, 'complete-%d' % tag)       # 0 not yet, 1 reply, 2 error, 3 dropped
+                how = e.choose(outcomes, 'complete-%d' % tag)       # 0 not yet, 1 reply, 2 error, 3 dropped
                 if how == 0: continue
                 snd = env.senders[tag]
                 if how == 1:
-                    reply = Ok(Ref(Cell(Struct('TaskReply', [Ref(Cell(Pkt(tag, 'req')), 'Box'), Ref(Cell(Pkt(tag, 'reply')), 'Box'),
+                    from props import executor as X
+                    reply = Ok(Ref(Cell(Struct('TaskReply', [Ref(Cell(X.data_packet(e, X.bulk(e, [0]))), 'Box'), Ref(Cell(X.data_packet(e, X.bulk(e, [tag]))), 'Box'),
                                                             e.run_func(e.find_fn('Slowlog', 'new'), [1, False])])), 'Box'))
                     e.run_func(e.find_fn('CmdReplySender', 'send'), [Ref(snd), reply]); env.completed[tag] = 'reply'
                 elif how == 2:
@@ -380,14 +412,16 @@ def session_loop(ctx, job):
                 else:
                     e.drop_value(snd.v); env.completed[tag] = 'dropped'
             r = e.poll(Ref(cell))
+            if r.variant == 1 and not env.registered and lost_wakeup[0] is None: lost_wakeup[0] = env.round
             if r.variant == 0:
                 res = un(r.f[0].v); outcome = 'closed-ok' if res.variant == 0 else 'closed-err'; break
         # ---- oracle
         written = env.written
         def tagof(p):
-            p = un(p)
-            if isinstance(p, Pkt): return ('reply', p.tag)
-            return ('error', None)        # an error reply built by the session (RespPacket)
+            from props import executor as X
+            t = X.packet_tree(e, un(p))
+            if t[0] == 'Bulk' and t[1] is not None and len(t[1]) == 1: return ('reply', t[1][0])
+            return ('error', None)        # an error reply built by the session
         def wit(m=None):
             return {'requests': n, 'fault': job['fault'], 'completed': dict(env.completed), 'received': env.received,
                     'written': [repr(un(p))[:60] for p in written], 'outcome': outcome}
@@ -402,6 +436,7 @@ def session_loop(ctx, job):
             elif how in ('error', 'dropped'): ok_order = ok_order and kind == 'error'
             else: ok_order = False           # written before its request completed
         items.append(('replies-in-request-order-each-its-own', 'C08/session-reply-misordered-or-misassociated', ok_order, wit))
+        items.append(('pending-poll-registers-a-waker', 'C08/session-sleeps-without-waker', lost_wakeup[0] is None, lambda m=None: dict(wit(), round=lost_wakeup[0])))
         # nothing is skipped while the session is alive: every completed request whose predecessors are all completed
         # has been written, provided the client sink was ready for it (checked at quiescence: all done, extra rounds)
         if outcome == 'pending' and job.get('quiescent'):
@@ -419,19 +454,39 @@ def session_loop(ctx, job):
 def run(ctx):
     quick = ctx.tier == 'quick'
     jobs = []
-    # (A)
-    strategies = ['Disabled', 'Fixed'] if quick else ['Disabled', 'Fixed', 'Dynamic']
-    for strategy in strategies:
-        jobs.append({'kind': 'conn', 'name': '%s no fault, 2 tasks' % strategy, 'tasks': 2, 'first': 2, 'rounds': 3, 'strategy': strategy, 'fault': None})
+    # (A) each family frees some environment dimensions (arrival / sink readiness / replies are free unless stated)
+    R = 3
+    def conn_jobs(strategy, full):
+        out = []
+        pol = None if full else {'sink': 'ready', 'arrive': 'all'}     # time-based batching forks on the clock: fewer free dimensions
+        out.append({'kind': 'conn', 'name': '%s no fault, 2 requests' % strategy, 'tasks': 2, 'first': 2, 'rounds': R, 'strategy': strategy, 'fault': None, 'policy': pol})
+        out.append({'kind': 'conn', 'name': '%s no fault, 2 requests, flush pending / timer ticks' % strategy, 'tasks': 2, 'first': 2, 'rounds': R if full else 2, 'strategy': strategy, 'fault': None,
+                    'policy': {'sink': 'ready', 'arrive': 'all', 'flush': 'free', 'tick': 'free'}})
+        out.append({'kind': 'conn', 'name': '%s silent backend, timer ticks' % strategy, 'tasks': 2, 'first': 2, 'rounds': R, 'strategy': strategy, 'fault': None,
+                    'policy': {'sink': 'ready', 'arrive': 'all', 'reply': 'none', 'tick': 'free'}, 'second': True})
         for site in FAULT_SITES:
-            for rd in (1, 2):
-                jobs.append({'kind': 'conn', 'name': '%s fault %s@%d then second connection' % (strategy, site, rd), 'tasks': 3, 'first': 2, 'rounds': 2 if quick else 3,
-                             'strategy': strategy, 'fault': (site, rd), 'second': True, 'fault2': None})
+            for rd in ((1, 2) if full else (1,)):
+                out.append({'kind': 'conn', 'name': '%s fault %s@%d then second connection' % (strategy, site, rd), 'tasks': 3, 'first': 2, 'rounds': 2 if (quick or not full) else 3,
+                            'strategy': strategy, 'fault': (site, rd), 'second': True, 'fault2': None, 'policy': pol})
+        return out
+    jobs += conn_jobs('Disabled', True)
+    jobs += conn_jobs('Fixed', not quick)
     if not quick:
-        jobs.append({'kind': 'conn', 'name': 'Disabled no fault, 3 tasks', 'tasks': 3, 'first': 3, 'rounds': 3, 'strategy': 'Disabled', 'fault': None})
+        jobs += conn_jobs('Dynamic', False)
+        jobs.append({'kind': 'conn', 'name': 'Disabled no fault, 3 requests', 'tasks': 3, 'first': 3, 'rounds': 3, 'strategy': 'Disabled', 'fault': None})
         for site in FAULT_SITES:
-            jobs.append({'kind': 'conn', 'name': 'Disabled fault %s@1 twice' % site, 'tasks': 2, 'first': 2, 'rounds': 2, 'strategy': 'Disabled', 'fault': (site, 1), 'second': True, 'fault2': (site, 1)})
+            jobs.append({'kind': 'conn', 'name': 'Disabled fault %s@1 on both connections' % site, 'tasks': 2, 'first': 2, 'rounds': 2, 'strategy': 'Disabled', 'fault': (site, 1), 'second': True, 'fault2': (site, 1)})
+    import re as _re, os as _os
+    from vlib import overlay as _ov
+    _m = _re.search(r'const MAX_BACKEND_RETRY: usize = (\d+);', open(_os.path.join(_ov.CRATE, 'src/proxy/backend.rs')).read())
+    maxr = int(_m.group(1)) if _m else 3
+    for site in ['silent'] + (FAULT_SITES if not quick else ['read_closed', 'send']):
+        pol = {'sink': 'ready', 'arrive': 'all', 'reply': 'none', 'tick': 'free'} if site == 'silent' else {'sink': 'ready', 'arrive': 'all'}
+        flt = None if site == 'silent' else (site, 1)
+        jobs.append({'kind': 'conn', 'name': 'Disabled persistent %s: every connection fails the same way' % site, 'tasks': 1, 'first': 1, 'rounds': 3 if site == 'silent' else 1,
+                     'strategy': 'Disabled', 'fault': flt, 'fault2': flt, 'second': True, 'persistent': True, 'max_conns': maxr + 3, 'policy': pol})
     jobs.append({'kind': 'conn', 'name': 'Disabled task channel closed', 'tasks': 1, 'first': 1, 'rounds': 3, 'strategy': 'Disabled', 'fault': ('rx_closed', 2)})
+    strategies = ['Disabled', 'Fixed'] if quick else ['Disabled', 'Fixed', 'Dynamic']
     # (C)
     for n in (1, 2, 3):
         for shape, m in (('err', 0), ('single', 0), ('multi', n), ('multi', n + 1), ('multi', max(n - 1, 0))):
@@ -441,10 +496,17 @@ def run(ctx):
     jobs.append({'kind': 'sender', 'mode': 'twice'}); jobs.append({'kind': 'sender', 'mode': 'drop'})
     # (B)
     for nreq, rounds in ((2, 3),) if quick else ((2, 3), (3, 3), (2, 4)):
-        jobs.append({'kind': 'session', 'name': '%d requests, %d rounds' % (nreq, rounds), 'requests': nreq, 'rounds': rounds, 'fault': None, 'timeout': False})
-        jobs.append({'kind': 'session', 'name': '%d requests, %d rounds, session timer' % (nreq, rounds), 'requests': nreq, 'rounds': rounds, 'fault': None, 'timeout': True})
-        jobs.append({'kind': 'session', 'name': '%d requests, client write error' % nreq, 'requests': nreq, 'rounds': rounds, 'fault': ('client_write_err', 2), 'timeout': False})
-        jobs.append({'kind': 'session', 'name': '%d requests, client closes' % nreq, 'requests': nreq, 'rounds': rounds, 'fault': ('client_closed', 2), 'timeout': False})
+        jobs.append({'kind': 'session', 'name': '%d requests, %d rounds, ordering' % (nreq, rounds), 'requests': nreq, 'rounds': rounds, 'fault': None, 'timeout': False})
+        jobs.append({'kind': 'session', 'name': '%d requests, %d rounds, SESSION_BATCH_BUF scaled down to 2' % (nreq + 1, rounds), 'requests': nreq + 1, 'rounds': rounds, 'fault': None, 'timeout': False,
+                     'batch_buf': 2, 'policy': {'sink': 'ready'}})
+        jobs.append({'kind': 'session', 'name': '%d requests, %d rounds, failing / dropped exchanges' % (nreq, rounds), 'requests': nreq, 'rounds': rounds, 'fault': None, 'timeout': False,
+                     'failures': True, 'policy': {'sink': 'ready', 'arrive': 'all'}})
+        jobs.append({'kind': 'session', 'name': '%d requests, %d rounds, flush pending' % (nreq, rounds), 'requests': nreq, 'rounds': rounds, 'fault': None, 'timeout': False,
+                     'policy': {'sink': 'ready', 'flush': 'free'}})
+        jobs.append({'kind': 'session', 'name': '%d requests, %d rounds, session timer' % (nreq, rounds), 'requests': nreq, 'rounds': rounds, 'fault': None, 'timeout': True,
+                     'policy': {'sink': 'ready', 'arrive': 'all'}})
+        jobs.append({'kind': 'session', 'name': '%d requests, client write error' % nreq, 'requests': nreq, 'rounds': rounds, 'fault': ('client_write_err', 2), 'timeout': False, 'policy': {'sink': 'ready'}})
+        jobs.append({'kind': 'session', 'name': '%d requests, client closes' % nreq, 'requests': nreq, 'rounds': rounds, 'fault': ('client_closed', 2), 'timeout': False, 'policy': {'sink': 'ready'}})
     ctx.bounds = {'backend connection': '2-3 requests, 2-3 poll rounds per connection, two connections in sequence, one fault per connection at every site (sink ready / start_send / flush / read error / closed by peer) and round; batching strategies %s' % strategies,
                   'session': '2-3 pipelined requests, 3-4 poll rounds; every request completed by reply / error / drop at any round in any order; sink readiness, flush, session timer as symbolic choices',
                   'kernels': 'ReqTask::set_result for 1..3 sub-requests x result shapes; CmdReplySender send twice / drop'}
